@@ -10,6 +10,7 @@ from .rules import optionrules as op
 from .rules import recordrules as rr
 from .rules import parser as ps
 from .rules import values as va
+from .rules import ties as ti
 
 NOT_BEHAVIOUR = 'decides the listed structural clauses (necessary conditions); does not decide the behaviour itself'
 
@@ -134,6 +135,28 @@ prop('C14',
      'construction. ' + NOT_BEHAVIOUR,
      ['__str__ purity, half-up constants, sign-safe split, str-only rendering (R25)', 'value immutability (R50)'],
      ['digit-exactness of the printed string for a given value (needs evaluation)'])
+prop('C07',
+     [('R15', ti.r15_tie_funnel), ('R16', ti.r16_extremum_polarity), ('R17', ti.r17_single_from_breaktie),
+      ('R18', ti.r18_sure_loser_strict), ('R03', bt.r03_batch_cap)],
+     'Static analysis of /repo source: the tie order is consulted only inside the rules\' breakTie functions, which log '
+     'every tie among several candidates and return the first in the declared order; the set handed to breakTie for an '
+     'exclusion is the arg-min set of the tally over the hopefuls (within the surplus for Meek), for a surplus the arg-max '
+     'set over the pending; every candidate acted on singly is the one breakTie returned; batches are capped and accepted '
+     'only under a strict inequality; Scottish prior-stage polarity. ' + NOT_BEHAVIOUR,
+     ['tie funnel: order read only at a logged tie, first listed wins (R15)', 'lowest/highest selection polarity (R16)',
+      'single candidates come from breakTie (R17)', 'sure-loser strictness (R18)', 'batch caps (R03)'],
+     ['that the sums used in a sure-loser test are the right sums for every profile',
+      'the metamorphic statement about changing the tie order, beyond "no unlogged read of the order"'])
+
+prop('C11',
+     [('R15', ti.r15_tie_funnel), ('R17', ti.r17_single_from_breaktie), ('R05', cf.r05_status_ownership),
+      ('R28', ps.r28_strip_complete), ('R26', ps.r26_cid_sanitiser)],
+     'Static analysis of /repo source: candidates are singled out for a decision only through the declared tie order (never '
+     'by position, id or ballot order); withdrawn candidates are never in a selection that receives an action; every '
+     'withdrawn id is removed from every rank at parse time; only validated ids can be marked withdrawn. ' + NOT_BEHAVIOUR,
+     ['single candidates chosen only via the tie order (R15, R17)', 'withdrawn never acted on (R05)',
+      'withdrawn stripped completely (R28)', 'withdrawn ids validated (R26)'],
+     ['equality of winners/tallies under renumbering and record equality with the candidate deleted (metamorphic, two runs)'])
 
 LEVEL_TEXT = ('Static analysis of the source of /repo (never executed): obligations are enumerated from the '
               'repository\'s own entities (rule classes, call sites, stores, loops, class attributes) and each is '
